@@ -12,14 +12,17 @@ func init() {
 }
 
 func runC16(c *core.Check) {
-	c.Rule = "every value of the GoHcl.tla struct family reachable in <= MaxSteps field assignments (strings from a 12-entry table of escape-relevant strings and awkward map keys: empty, spaces, quotes, newline, ${ and %{ sequences, combining marks, backslash, for, null, non-identifiers; nil/non-nil pointers; maps and slices up to MaxSeq; labelled repeated blocks by value and by pointer, two nesting levels with two labels): EncodeIntoBody -> bytes -> ParseConfig -> DecodeBody reproduces the value, and the equivalent JSON document decodes (hclsimple) to the same value; plus every MC_Dec body decoded into each struct type without panic. Non-trivial = distinct encoded source"
+	c.Rule = "every value of the GoHcl.tla struct family reachable in <= MaxSteps field assignments (strings from a 14-entry table of escape-relevant strings and awkward map keys: empty, spaces, quotes, newline, ${ and %{ sequences, combining marks, backslash, for, null, non-identifiers; nil/non-nil pointers; maps and slices up to MaxSeq; labelled repeated blocks by value and by pointer, two nesting levels with two labels): EncodeIntoBody -> bytes -> ParseConfig -> DecodeBody reproduces the value, and the equivalent JSON document decodes (hclsimple) to the same value; plus every MC_Dec body decoded into each struct type without panic. Non-trivial = distinct encoded source"
 	c.Assumes = []string{"equality modulo nil-vs-empty slices/maps and NFC normalisation of strings (HCL cannot represent the difference)"}
-	consts := map[string]string{"NStr": "14", "MaxSeq": "2", "MaxSteps": "2"}
+	cfgs := []map[string]string{{"NStr": "14", "MaxSeq": "2", "MaxSteps": "2"}}
 	if c.Tier == "thorough" {
-		consts = map[string]string{"NStr": "14", "MaxSeq": "2", "MaxSteps": "3"}
+		// three assignments over the first seven strings (14 strings x 3 steps is 25 M+ values)
+		cfgs = append(cfgs, map[string]string{"NStr": "7", "MaxSeq": "2", "MaxSteps": "3"})
 	}
-	c.Extra["constants"] = consts
-	streamTLC(c, core.TLCRun{Module: "MC_C16", Consts: consts, Timeout: minutes(40), KeepVars: []string{"val"}}, func(st core.State) { c16.Handle(c, st) })
+	c.Extra["constants"] = cfgs
+	for _, consts := range cfgs {
+		streamTLC(c, core.TLCRun{Module: "MC_C16", Consts: consts, Timeout: minutes(40), KeepVars: []string{"val"}}, func(st core.State) { c16.Handle(c, st) })
+	}
 	streamTLC(c, core.TLCRun{Module: "MC_Dec", Parts: 4, Consts: map[string]string{"MaxSpecD": "0", "MaxItems": "2"}, Timeout: minutes(20), KeepVars: []string{"phase", "body"}},
 		func(st core.State) { c16.HandleArbitrary(c, st) })
 }
